@@ -28,3 +28,56 @@ package server
 //@     invariant forall k int :: 0 <= k && k < len(liveSlaves) ==> exists j int :: 0 <= j && j <= rangeindex && liveSlaves[k] == rs(slot).Slaves[j].Addr && has(core.EngineGlobal.ProxyPool, liveSlaves[k])
 //@     invariant forall j int :: 0 <= j && j <= rangeindex && healthy(rs(slot).Slaves[j].Addr) ==> listed(rs(slot).Slaves[j].Addr)
 //@     invariant forall a string :: !has(core.EngineGlobal.ProxyPool, a) || core.EngineGlobal.ProxyPool[a].AutoBanFlag == old(core.EngineGlobal.ProxyPool[a].AutoBanFlag) || !core.EngineGlobal.ProxyPool[a].AutoBanFlag
+
+//@ define cc(c) = ref(core.conn, c)
+
+//@ func listenServer.getConn
+//@   props C04 C15
+//@   requires r != nil && ls.Options != nil && core.EngineGlobal != nil
+//@   requires 0 <= slot && slot < 16384 && rs(slot) != nil && rs(slot).Master != nil
+//@   requires forall j int :: 0 <= j && j < len(rs(slot).Slaves) ==> rs(slot).Slaves[j] != nil
+//@   requires forall a string :: has(core.EngineGlobal.ProxyPool, a) ==> core.EngineGlobal.ProxyPool[a] != nil
+//@   ensures[conn@C04] result1 == nil ==> result0 != nil && has(core.EngineGlobal.ProxyPool, result3) && cc(result0).opened && cc(result0).loop != nil && cc(result0).loop.poller != nil && cc(result0).outFragQueue != nil && core.fwf(cc(result0).outFragQueue)
+//@   ensures[role@C04] (result1 == nil && masterOnly(ls, r)) ==> result3 == rs(slot).Master.Addr
+//@   ensures[member@C04] result1 == nil ==> (result3 == rs(slot).Master.Addr || (exists j int :: 0 <= j && j < len(rs(slot).Slaves) && result3 == rs(slot).Slaves[j].Addr))
+//@   ensures[errs] result1 == nil || result1 == codec.AddrNotFound || result1 == codec.UnKnownProxyPool || result1 == codec.UnKnownProxyPoolConn
+
+//@ use queue
+
+//@ define cq(c) = cc(c).inMsgQueue
+//@ define cqn(c, k) = qnth(heap(core.Msg.prev), cq(c).head, k)
+//@ define cqwf(c) = cq(c).count >= 0 && qnth_unfold(heap(core.Msg.prev), cq(c).head, 1) && (cq(c).count == 0 ==> cq(c).head == nil && cq(c).tail == nil)
+//@     && (cq(c).count > 0 ==> cq(c).head != nil && cq(c).tail == cqn(c, cq(c).count - 1) && cq(c).tail.prev == nil)
+//@     && (forall i int :: 0 <= i && i < cq(c).count ==> cqn(c, i) != nil)
+//@     && (forall i int, j int :: 0 <= i && i < j && j < cq(c).count ==> cqn(c, i) != cqn(c, j))
+//@ define fnotinq(s, f) = forall i int :: 0 <= i && i < cc(s).outFragQueue.count ==> qnth(heap(core.Frag.prev), cc(s).outFragQueue.head, i) != f
+//@ define local(r) = r.Type <= codec.UNKNOWN || r.Type >= codec.Sentinel || r.Type == codec.ReqTooLarge || r.Type == codec.ReqWrongArgumentsNumber || r.Type == codec.ReqPing || r.Type == codec.ReqQuit
+
+//@ func listenServer.OnCReact
+//@   props C01 C03 C04 C12 C17
+//@   requires r != nil && c != nil && ls.Options != nil && core.EngineGlobal != nil
+//@   requires cq(c) != nil && cqwf(c) && (forall i int :: 0 <= i && i < cq(c).count ==> cqn(c, i) != r)
+//@   requires forall k int32 :: has(r.Body, k) ==> (r.Body[k] != nil && 0 <= k && k < 16384)
+//@   requires forall s int32 :: (0 <= s && s < 16384 && rs(s) != nil) ==> (rs(s).Master != nil && (forall j int :: 0 <= j && j < len(rs(s).Slaves) ==> rs(s).Slaves[j] != nil))
+//@   requires forall a string :: has(core.EngineGlobal.ProxyPool, a) ==> core.EngineGlobal.ProxyPool[a] != nil
+//@   assume at call conn.EnqueueOutFrag#0 :: fnotinq(sConn, frag)
+//@   ensures[unknown@C17] (r.Type <= codec.UNKNOWN || r.Type >= codec.Sentinel) ==> bytes_eq(out, "-ERR unknown command\r\n") && action == core.None
+//@   ensures[toolarge@C17] r.Type == codec.ReqTooLarge ==> bytes_eq(out, "-ERR req msg length too large\r\n") && action == core.None
+//@   ensures[arity@C17] r.Type == codec.ReqWrongArgumentsNumber ==> bytes_eq(out, "-ERR wrong number of arguments\r\n") && action == core.None
+//@   ensures[ping@C17] r.Type == codec.ReqPing ==> bytes_eq(out, "+PONG\r\n") && action == core.None
+//@   ensures[quit@C17] r.Type == codec.ReqQuit ==> bytes_eq(out, "+OK\r\n") && action == core.Close
+//@   ensures[local.nothing@C17] local(r) ==> heap(core.FragQueue.count) == old(heap(core.FragQueue.count)) && cq(c).count == old(cq(c).count)
+//@   ensures[reply.or.queue@C01] (out != nil) == (cq(c).count == old(cq(c).count))
+//@   ensures[queued@C01] out == nil ==> cq(c).count == old(cq(c).count) + 1 && cqn(c, old(cq(c).count)) == r && cqwf(c)
+//@   ensures[kept@C01] forall i int :: 0 <= i && i < old(cq(c).count) ==> cqn(c, i) == old(cqn(c, i))
+//@   ensures[recycle@C03] out != nil ==> heap(core.FragQueue.count) == old(heap(core.FragQueue.count))
+//@   ensures[owner@C03] out == nil ==> (forall k int32 :: has(r.Body, k) ==> r.Body[k].Owner == c)
+//@   loop 0
+//@     modifies core.Frag.Owner, core.Frag.prev, core.Frag.next, core.FragQueue.head, core.FragQueue.tail, core.FragQueue.count, liveSlaves, allmem(string)
+//@     modifies core.Pool.AutoBanFlag, time.Time.wall, time.Time.ext, time.Time.loc, core.Pool.LiftBanOrder, core.activeList.count, core.activeList.front, core.activeList.back, core.poolConn.next, core.poolConn.prev
+//@     invariant r != nil && c != nil && ls.Options != nil && core.EngineGlobal != nil && cq(c) != nil && cqwf(c)
+//@     invariant cq(c).count == old(cq(c).count) && (forall i int :: 0 <= i && i < cq(c).count ==> cqn(c, i) == old(cqn(c, i)) && cqn(c, i) != r)
+//@     invariant forall k int32 :: has(r.Body, k) ==> (r.Body[k] != nil && 0 <= k && k < 16384)
+//@     invariant forall k int32 :: visited(k) ==> r.Body[k].Owner == c
+//@     invariant forall s int32 :: (0 <= s && s < 16384 && rs(s) != nil) ==> (rs(s).Master != nil && (forall j int :: 0 <= j && j < len(rs(s).Slaves) ==> rs(s).Slaves[j] != nil))
+//@     invariant forall a string :: has(core.EngineGlobal.ProxyPool, a) ==> core.EngineGlobal.ProxyPool[a] != nil
